@@ -190,7 +190,7 @@ impl GenerateNewtype for StringNewtype {
         _inner_type: &Self::InnerType,
         maybe_default_value: &Option<syn::Expr>,
         guard: &Guard<Self::Sanitizer, Self::Validator>,
-        _traits: &HashSet<Self::TypedTrait>,
+        traits: &HashSet<Self::TypedTrait>,
     ) -> TokenStream {
         let test_len_char_min_vs_max = guard.standard_validators().and_then(|validators| {
             tests::gen_test_should_have_consistent_len_char_boundaries(type_name, validators)
@@ -201,6 +201,7 @@ impl GenerateNewtype for StringNewtype {
             generics,
             maybe_default_value,
             guard.has_validation(),
+            traits.contains(&StringDeriveTrait::Default),
         );
 
         quote! {
